@@ -418,6 +418,15 @@ def _render(ex):
 
 
 def translate(repo, lean):
+    info = _translate_addmul_n(repo, lean)
+    import gentie
+    words = gentie.gen_words(repo, lean)   # adc / sbb / DoubleWord helpers regenerated from the source (Gen/Words.lean)
+    info['words'] = words
+    info['changed'] = bool(info.get('changed')) or bool(words.get('changed'))
+    return info
+
+
+def _translate_addmul_n(repo, lean):
     import os
     path = os.path.join(lean, GEN_REL)
     try:
